@@ -583,7 +583,15 @@ def rule_R8(ctx):
     P = ctx.program
     spec = _spec_tables()["frequency_grid"]["bands"]
     b = P.body("huginn_net_tcp::uptime::round_frequency_p0f_style")
-    var = [i for i, l in enumerate(b.locals) if l.get("name") == "freq" and b.locals[i]["ty"] == "u32"]
+    # the integer rate: the u32 local holding `freq as u32` (whatever it is called)
+    var = []
+    for i_, j_, s_ in b.iter_stmts():
+        if s_["k"] == "assign" and not s_["p"]["pr"] and s_["r"]["k"] == "cast" and s_["r"].get("ty") == "u32":
+            o_ = s_["r"]["o"].get("c") or s_["r"]["o"].get("m")
+            if o_ is not None and TB._root_local(b, o_["l"]) == 1:
+                var.append(s_["p"]["l"])
+    named = [i for i, l in enumerate(b.locals) if l.get("name") and b.locals[i]["ty"] == "u32" and i > b.arg_count and TB._root_local(b, i) in var]
+    var = named or var
     start = None
     for blk in sorted(b.reachable):
         if b.blocks[blk]["t"]["k"] == "switch":
@@ -642,10 +650,11 @@ def rule_R7(ctx):
               "the multiple of the base rate is computed as %s instead of round(raw / base): a steady clock slightly below a grid value (950 Hz, 92 Hz) is snapped to the "
               "next lower decade and its uptime is off by that factor" % got, ctx.loc(b))
     oks = []
-    for (rb, j, term, _c) in TB.return_sites(b, P):
+    for (rb, j, term, pconds, split) in TB.return_alternatives(b, P):
         tt = T.strip(term)
         if tt[0] == "agg" and tt[3] == "Some":
-            conds = Q.canon_conds(P, T.dom_conds(b, S, rb))
+            # `cond.then_some(base)` yields Some under cond: the split entry carries that condition
+            conds = Q.canon_conds(P, T.dom_conds(b, S, rb)) + (list(pconds) if split else [])
             tol = [c for c in conds if c[0] == "cmp" and c[1] in ("Le", "Lt", "Gt", "Ge") and "abs(" in _unf(c[2]) + _unf(c[3])]
             inner = _unf(tt[4][0])
             oks.append((inner, [(c[1], _unf(c[2]), _unf(c[3]), c[4]) for c in tol]))
